@@ -43,7 +43,8 @@ SCHEDULE = [
 # free networks (no fixed point) are generated from vectors, observed coordinates and distances only: ellipsoidal heights,
 # zenith angles and angles refer to the ellipsoid, a translation changes them at second order, so the datum defect of such
 # a network is not an exact rank defect (singular values ~1e-4: "numerically ambiguous", DESIGN 1.4)
-FEATURES = ("dh", "deg", "blh", "clusters", "mixed-cluster", "inline", "partial", "wide-angles", "derived")
+FEATURES = ("dh", "deg", "blh", "clusters", "mixed-cluster", "inline", "partial", "wide-angles", "derived", "angle-target-dh",
+            "idle-point")
 
 
 # ------------------------------------------------------------------ case construction
@@ -52,7 +53,11 @@ def build_case(seed, i):
     rng = np.random.default_rng([seed, i, 1919])
     kinds, datum = SCHEDULE[i % len(SCHEDULE)]
     kinds = kinds.split("+")
-    feats = [f for f in FEATURES if rng.uniform() < 0.3]
+    feats = [f for f in FEATURES if rng.uniform() < (0.3 if f != "idle-point" else 0.12)]
+    if "dh" in feats and "derived" in feats:
+        feats.remove("derived")       # gama-g3 derives approximate coordinates along vectors without their dh
+    if "dh" not in feats and "angle-target-dh" in feats:
+        feats.remove("angle-target-dh")
     if "vector" in kinds and len(kinds) == 1 and i % 2 == 0:
         feats = [f for f in feats if f != "mixed-cluster"]
     net = g3gen.gen_net(rng, kinds, datum, features=feats)
